@@ -305,7 +305,12 @@ class AsyncSimStream(httpcore.AsyncNetworkStream):
         return None
 
 
+import contextvars
+CUR_CALLER = contextvars.ContextVar("verif_cur_caller", default=None)     # set by harness caller tasks: who performs an operation
+
+
 async def _gate(net, rec):
+    rec.setdefault("caller", CUR_CALLER.get())
     if getattr(net, "yield_in_ops", False) and not net.gated:
         import anyio
         await anyio.sleep(0)        # every network operation is a (cancellable) suspension point
